@@ -38,7 +38,7 @@ type c03Out struct {
 }
 
 type c03Line struct {
-	Case c03Case         `json:"case"`
+	Case c03Case           `json:"case"`
 	Exp  []json.RawMessage `json:"exp"`
 }
 
@@ -418,7 +418,9 @@ func c03ExecNum[T fpgo.Numeric](c *c03Case, nilEmpty bool, scale int) (out c03Ou
 	panic("unknown numeric fn " + c.Fn)
 }
 
-func c03IsNumeric(fn string) bool { return fn == "Min" || fn == "Max" || fn == "MinMax" || fn == "Range" }
+func c03IsNumeric(fn string) bool {
+	return fn == "Min" || fn == "Max" || fn == "MinMax" || fn == "Range"
+}
 
 var c03Types = []string{"int", "string", "struct"}
 
@@ -485,12 +487,12 @@ func normJSON(v interface{}) interface{} {
 }
 
 type c03Mismatch struct {
-	File string   `json:"file"`
-	Line int      `json:"line"`
-	Case c03Case  `json:"case"`
-	Ty   string   `json:"ty"`
-	Nil  bool     `json:"nil"`
-	Got  c03Out   `json:"got"`
+	File string            `json:"file"`
+	Line int               `json:"line"`
+	Case c03Case           `json:"case"`
+	Ty   string            `json:"ty"`
+	Nil  bool              `json:"nil"`
+	Got  c03Out            `json:"got"`
 	Exp  []json.RawMessage `json:"exp"`
 }
 
